@@ -27,7 +27,7 @@ RUNS = {"quick": 16000, "thorough": 1500000}
 HASHSEEDS = [1, 2]
 SVC = {
     "svc": 0x4321, "inst": 1, "major": 2, "minor": 0, "methods": {"1": "echo"},
-    "eventgroups": [{"id": 1, "interval": None, "values": {"1": "00", "2": "aabb"}}, {"id": 2, "interval": 0.25, "values": {"16": "10"}}],
+    "eventgroups": [{"id": 1, "interval": None, "values": {"1": "", "2": "aabb"}}, {"id": 2, "interval": 0.25, "values": {"16": "10"}}],
 }
 TIMINGS = {"INITIAL_DELAY_MIN": 0, "INITIAL_DELAY_MAX": 0, "REPETITIONS_MAX": 0, "CYCLIC_OFFER_DELAY": 100, "SEND_COLLECTION_TIMEOUT": 0, "SUBSCRIBE_REFRESH_INTERVAL": None}
 INF_TTL = 0xFFFFFF
@@ -68,6 +68,12 @@ def gen(seed, idx, tier):
     ops = [{"k": "call", "t": 0.0, "f": "start", "a": []}]
     t = 0.01
     val = 0
+    if shared and r.random() < 0.5:
+        # before anything is subscribed: the listener interface is told about the end of a subscription whose endpoint it
+        # never saw (tests/test_service.py::test_unsubscribe_unknown does this); it must have no effect on what follows
+        for _ in range(r.randint(1, 2)):
+            p0 = r.randrange(3)
+            ops.append({"k": "call", "t": 0.005, "f": "unsubscribe_direct", "a": [r.choice([1, 2]), ep(p0, r.choice([4000, 4001])), r.choice([0, 1]), p0]})
     for _ in range(r.randint(4, 30)):
         u = r.random()
         if u < 0.3:
@@ -99,7 +105,8 @@ def gen(seed, idx, tier):
         elif k < 0.75:
             val += 1
             ev = r.choice([1, 2, 16])
-            ops.append({"k": "call", "t": t, "f": "set_value", "a": [1 if ev < 16 else 2, ev, "%04x" % val]})
+            # the empty payload is a legal value (a trigger event)
+            ops.append({"k": "call", "t": t, "f": "set_value", "a": [1 if ev < 16 else 2, ev, "%04x" % val if r.random() < 0.8 else ""]})
         elif k < 0.97:
             gg = r.choice([1, 1, 1, 2])
             evs = r.choice([[1], [2], [1, 2], [2, 1], []]) if gg == 1 else r.choice([[16], []])
